@@ -148,10 +148,13 @@ func genC12(t *rapid.T) c12Case {
 	for i := range qs {
 		switch rapid.IntRange(0, 3).Draw(t, "vk") {
 		case 0: // exact edge doubles and their neighbours
-			k := rapid.IntRange(0, 10).Draw(t, "edge")
+			k := rapid.IntRange(-1, 10).Draw(t, "edge")
 			v := 0.0
 			if k > 0 {
 				v = edgeDouble(k)
+			}
+			if k < 0 {
+				v = math.Copysign(0, -1) // negative zero: equal to 0, a member of [0, 0.1)
 			}
 			switch rapid.IntRange(0, 2).Draw(t, "nb") {
 			case 1:
@@ -183,6 +186,8 @@ func TestC12(t *testing.T) { runProp(t, "C12", genC12, checkC12) }
 // [VERIF_LO, VERIF_HI] (the driver splits 1..10^6 over shards => exhaustive).
 func TestC12Sweep(t *testing.T) {
 	var cases []c12Case
+	nz := math.Copysign(0, -1)
+	cases = append(cases, c12Case{Kind: "uniformity", Qs: []float64{nz}}, c12Case{Kind: "uniformity", Qs: []float64{0.05, 0.15, 0.25, 0.35, 0.45, 0.55, 0.65, 0.75, 0.85, 0.95, nz, nz, 0, 1, 5e-324}, Perm: 3})
 	for _, s := range append([]int{1, 2, 3, 4, 5, 10, 19, 20, 21, 49, 50, 51, 100, 999, 1000, 1001, 1000000}, c12Ties...) {
 		cases = append(cases, c12Case{Kind: "threshold", S: s})
 	}
